@@ -6,7 +6,9 @@ CONSTANTS
   MaxBurst = 3
   MaxMsgs = 6
   Depth = 9
-  Focus = FALSE
+  Mode = "all"
+  Aware = FALSE
+  Holds = {FALSE}
 INVARIANT Inv
 VIEW view
 ACTION_CONSTRAINT EmitEdge
